@@ -1,0 +1,47 @@
+//go:build verif
+
+// Contracts of package exprtransform for the gocv verifier (properties C09,
+// C12, C13, C28). Comment-only: no Go code is compiled from this file.
+//
+// tree(k) is the k-th expression tree of the verifier's corpus: a tree of
+// concrete shape (every node kind, operator and width relation, plus seeded
+// random trees) whose constants have arbitrary bytes; registers and memory
+// are arbitrary too. val(e) is the value of e (8*width(e) bits) under that
+// arbitrary valuation, so "val(a) == val(b)" means equal for every valuation.
+
+package exprtransform
+
+//@ func ConstFold
+//@   enum k in TREES
+//@   input:ex tree(k)
+//@   ensures[width] width(result) == width(ex)
+//@   ensures[value] val(result) == val(ex)
+//@   ensures[const-tree] isconsttree(ex) ==> isconst(result)
+//@   ensures[no-const-op] noconstop(result)
+//@   ensures[idempotent] sameexpr(apply("exprtransform.ConstFold", result), result)
+
+//@ func SetWidth
+//@   enum k in TREES, w in SETWIDTHS
+//@   input:ex tree(k)
+//@   ensures[width] width(result) == w
+//@   ensures[value] val(result) == ext(val(ex), w)
+
+//@ func PurgeWidthGadgets
+//@   enum k in TREES
+//@   input:ex tree(k)
+//@   ensures[width] width(result) == width(ex)
+//@   ensures[value] val(result) == val(ex)
+
+//@ func Possibilities
+//@   enum k in TREES
+//@   input:ex tree(k)
+//@   ensures[nonempty] len(result) >= 1
+//@   ensures[widths] allwidth(result, width(ex))
+//@   ensures[cond-free] allcondfree(result)
+//@   ensures[covers] anysame(result, val(ex))
+
+//@ func Equal
+//@   enum k in TREES, d in TREEDELTA
+//@   input:ex1 tree(k, "a")
+//@   input:ex2 tree(k + d, "b")
+//@   ensures result == sameexpr(ex1, ex2)
